@@ -12,7 +12,7 @@ m = json.load(open(os.path.join(src, "meta.json")))
 old = json.load(open(os.path.join(dst, "meta.json"))) if os.path.exists(os.path.join(dst, "meta.json")) else {}
 out = {"property": pid, "variant": v, "summary": m.get("summary"), "needs_to_manifest": m.get("needs_to_manifest"),
        "files_touched": m.get("files_touched"),
-       "author": "independent sub-agent given only the property text%s and a scratch worktree" % (" (round 2: plus the two earlier summaries to avoid)" if v in "cd" else " (round 3: plus the four earlier summaries to avoid)" if v in "ef" else " (round 4: plus the six earlier summaries to avoid)" if v in "gh" else " (round 5: plus the eight earlier summaries to avoid)" if v in "ij" else " (round 6: plus the ten earlier summaries to avoid)" if v in "kl" else " (round 7: plus the twelve earlier summaries to avoid)" if v in "mn" else ""),
+       "author": "independent sub-agent given only the property text%s and a scratch worktree" % (" (round 2: plus the two earlier summaries to avoid)" if v in "cd" else " (round 3: plus the four earlier summaries to avoid)" if v in "ef" else " (round 4: plus the six earlier summaries to avoid)" if v in "gh" else " (round 5: plus the eight earlier summaries to avoid)" if v in "ij" else " (round 6: plus the ten earlier summaries to avoid)" if v in "kl" else " (round 7: plus the twelve earlier summaries to avoid)" if v in "mn" else " (round 8, time-boxed: plus the fourteen earlier summaries to avoid)" if v in "op" else ""),
        "author_ran": m.get("ran")}
 for k in ("detected_by", "detected", "violation_keys", "confirmed_by_main_session", "declared_not_decided"):
     if k in old:
